@@ -257,14 +257,23 @@ def child_main(spec_file, out_file):
         from vf import argmap as _am
         argmap = _am.start(REPO)
     try:
-        os.chdir(tmp)
+        # the files a check asks for go to one directory, the process works in another: whatever lands in the working
+        # directory was put there by code that ignored the directory of the file name it was given
+        work, cwd = os.path.join(tmp, 'files'), os.path.join(tmp, 'cwd')
+        os.makedirs(work)
+        os.makedirs(cwd)
+        os.chdir(cwd)
         mod = importlib.import_module('vf.props.%s' % prop.lower())
-        ctx = Ctx(prop, tier, seed, shard, spec, tmp)
+        ctx = Ctx(prop, tier, seed, shard, spec, work)
         if spec.get('replay') is not None:
             mod.replay(ctx, spec['replay'])
         else:
             mod.run_shard(ctx, spec)
         check_repo_imports()
+        stray = sorted(os.listdir(cwd))
+        if stray:
+            ctx.count('stray_files_in_working_directory', len(stray))
+            ctx.see('stray_file_in_working_directory', stray[0])
     except BaseException as e:  # noqa
         out['status'] = 'harness_error'
         out['error'] = ''.join(traceback.format_exception(type(e), e, e.__traceback__))[-6000:]
